@@ -357,14 +357,22 @@ class Repo:
                         yield os.path.relpath(os.path.join(d, f), self.root)
 
     def _load(self, include_tests: bool) -> None:
+        import re as _re
+        sources: dict[str, str] = {}
         for rel in self._iter_files(include_tests):
-            path = os.path.join(self.root, rel)
             if rel in self.overrides:
-                src = self.overrides[rel]
+                sources[rel] = self.overrides[rel]
             else:
-                with open(path, encoding="utf-8") as fh:
-                    src = fh.read()
-            key = (rel, self.recover_names, hash(src))
+                with open(os.path.join(self.root, rel), encoding="utf-8") as fh:
+                    sources[rel] = fh.read()
+        # names called (or imported) per file: a helper that another file calls must keep its definition when the normaliser inlines it
+        called: dict[str, set[str]] = {rel: set(_re.findall(r"\b([A-Za-z_]\w*)\s*\(", src)) | set(_re.findall(r"import\s+([^\n]+)", src) and
+                                                 _re.findall(r"\b([A-Za-z_]\w*)\b", " ".join(_re.findall(r"import\s+([^\n]+)", src))))
+                                       for rel, src in sources.items()}
+        for rel, src in sources.items():
+            path = os.path.join(self.root, rel)
+            external = set().union(*(v for k, v in called.items() if k != rel)) if len(called) > 1 else set()
+            key = (rel, self.recover_names, hash(src), hash(frozenset(external)) if "def " in src else 0)
             cached = _TREE_CACHE.get(key)
             if cached is not None and cached[0] == src:
                 tree = cached[1]
@@ -377,7 +385,13 @@ class Repo:
                 n = 0
                 if self.recover_names:
                     from .localnames import recover
-                    n = recover(tree, src, rel)
+                    try:
+                        n = recover(tree, src, rel, external)
+                    except Exception as e:  # noqa: BLE001
+                        # the normaliser only removes reasons for false alarms: if it cannot cope with a file, the file is analysed as written
+                        self.parse_errors.append(f"normaliser skipped {rel}: {type(e).__name__}: {e}")
+                        tree = ast.parse(src, filename=path)
+                        n = 0
                     self.renamed_locals += n
                 set_parents(tree)
                 # rules never mutate syntax trees, so a parsed + normalised tree is shared by every Repo of this process
